@@ -94,7 +94,7 @@ def banActive (s : State) (h : Nat) : Bool :=
 def clearBan (s : State) (h : Nat) : State := { s with banned := upd s.banned h none }
 
 /-- the insertion part of `handleAddPeerMsg` -/
-def admit (s : State) (p : Peer) : State :=
+def admitPeer (s : State) (p : Peer) : State :=
   match p.kind with
   | .inbound => { s with inb := put s.inb p, conn := bump s.conn p.host 1 }
   | .outbound => { s with groups := bump s.groups p.group 1, outb := put s.outb p, conn := bump s.conn p.host 1 }
@@ -106,7 +106,7 @@ def addPeer (c : Cfg) (s : State) (p : Peer) : State × AddResult :=
   else if banActive s p.host then (s, .banned)
   else if (c.maxPerIP : Int) ≤ (clearBan s p.host).conn p.host then (clearBan s p.host, .perHost)
   else if c.maxPeers ≤ count (clearBan s p.host) then (clearBan s p.host, .total)
-  else (admit (clearBan s p.host) p, .admitted)
+  else (admitPeer (clearBan s p.host) p, .admitted)
 
 /-- `handleAddPeerMsg` for a peer whose `Addr()` does not split: refused before any state is read. -/
 def addBad (s : State) : State × AddResult :=
